@@ -768,8 +768,13 @@ class Check(PropertyCheck):
         try:
             obs['T_out'] = struct_obs(t.out_structure())
             obs['bwd'], obs['bwd_dt'] = apply_flat(t, ys, deny)
-            obs['M'] = dense_matrix(op)
-            obs['MT'] = dense_matrix(t)
+            # dense matrices column by column (quick tier: for inputs and outputs of at most 32 entries;
+            # the bilinear identity <op x, y> = <x, op.T y> is checked by the oracle for every case)
+            nin = sum(prod(sh) for sh, _ in obs['in']['leaves'])
+            nout = sum(prod(sh) for sh, _ in obs['out']['leaves'])
+            if self.tier != 'quick' or max(nin, nout) <= 32 or case.get('dense'):
+                obs['M'] = dense_matrix(op)
+                obs['MT'] = dense_matrix(t)
             tt = t.T
             obs['TT'] = tt.subscripts
             obs['TT_fwd'], _ = apply_flat(tt, xs, denx)
@@ -939,10 +944,16 @@ class Check(PropertyCheck):
         nodt = (lambda st: {'tree': st['tree'], 'leaves': [sh for sh, _ in st['leaves']]}) if 'bdt' in case else (lambda st: st)
         if obs['T_in'] != obs['out'] or nodt(obs['T_out']) != nodt(obs['in']):
             return f'structures of the transpose are not swapped: in {obs["in"]} out {obs["out"]} T_in {obs["T_in"]} T_out {obs["T_out"]}'
-        M, MT = obs['M'], obs['MT']
-        Mt = [list(r) for r in zip(*M)] if M else []
-        if MT != Mt:
-            return f'matrix of op.T {MT} is not the transpose of the matrix of op {M} (op.T.subscripts = {obs["T"]!r})'
+        if 'M' in obs:
+            M, MT = obs['M'], obs['MT']
+            Mt = [list(r) for r in zip(*M)] if M else []
+            if MT != Mt:
+                return f'matrix of op.T {MT} is not the transpose of the matrix of op {M} (op.T.subscripts = {obs["T"]!r})'
+        _, _, _, denx, deny = case_dtypes(case)
+        lhs = pairing(obs['fwd'], leaf_nums(case, 'y'), deny)
+        rhs = pairing(obs['bwd'], leaf_nums(case, 'x'), denx)
+        if lhs != rhs:
+            return f'op.T is not the transpose of op: <op x, y> = {lhs} but <x, op.T y> = {rhs} (op.T.subscripts = {obs["T"]!r})'
         if obs['TT_fwd'] != obs['fwd']:
             return f'op.T.T does not act as op: {obs["TT_fwd"]} vs {obs["fwd"]}'
         if obs['TT'] != case['subs'].replace(' ', ''):
@@ -996,6 +1007,22 @@ class Check(PropertyCheck):
             'note': 'outside wf_shapes of Props/C14.v (leaf ellipsis dimensions must contain the blocks\'); '
             'reported to the lead as a candidate finding, not alarmed on',
         }
+
+
+def pairing(arrs, nums, den):
+    """Bilinear pairing sum_k a_k b_k (no conjugation) of an observed pytree [[shape, entries]] with
+    the exact data (numerators / den), in exact rational arithmetic: (re, im) as strings."""
+    re_ = im_ = Fraction(0)
+    for (_, d), (nr, ni) in zip(arrs, nums):
+        ni = ni or [0] * len(nr)
+        if len(d) != len(nr):
+            return 'sizes differ'
+        for e, br, bi in zip(d, nr, ni):
+            ar, ai = (e if isinstance(e, list) else (e, 0))
+            ar, ai, br, bi = Fraction(str(ar)), Fraction(str(ai)), Fraction(br, den), Fraction(bi, den)
+            re_ += ar * br - ai * bi
+            im_ += ar * bi + ai * br
+    return [str(re_), str(im_)]
 
 
 def ref_einsum(s: str, B, x):
